@@ -45,6 +45,8 @@ const (
 	v06CW v06OpKind = iota // client writes n bytes
 	v06TW                  // target writes n bytes
 	v06Sync                // wait until both directions delivered everything sent so far
+	v06WDL                 // target stops taking bytes, client Write(n) under a write deadline a few ms ahead returns (k, timeout); deadline cleared, target resumes, client writes the rest from offset k
+	v06RStall              // client application pauses reading while the target writes n bytes
 	v06DL                  // client-side deadline: n&1 = SetDeadline instead of SetReadDeadline, n&2 = shortly ahead instead of in the past; cleared after a Read timed out
 )
 
@@ -61,6 +63,10 @@ func (o v06Op) String() string {
 		return fmt.Sprintf("tw%d", o.n)
 	case v06DL:
 		return "deadline:" + v06DLNames[o.n&3]
+	case v06WDL:
+		return fmt.Sprintf("writeDeadlineResume%d", o.n)
+	case v06RStall:
+		return fmt.Sprintf("readPause+tw%d", o.n)
 	default:
 		return "sync"
 	}
@@ -121,6 +127,7 @@ type v06ConnPlan struct {
 type v06Plan struct {
 	fastOpen bool
 	logger   bool
+	smallWin int // 0 or the stream flow-control window (both sides); write-deadline / read-pause ops need a small one
 	eventLogger bool // an EventLogger is configured (no yields here; see TestVerifC06_TeardownWindow)
 	nUsers   int
 	nSegs    int
@@ -134,7 +141,7 @@ type v06Plan struct {
 
 func (p *v06Plan) String() string {
 	var sb strings.Builder
-	fmt.Fprintf(&sb, "eventLogger=%v ", p.eventLogger)
+	fmt.Fprintf(&sb, "eventLogger=%v streamWindow=%d ", p.eventLogger, p.smallWin)
 	fmt.Fprintf(&sb, "fastOpen=%v logger=%v users=%d segments=%d randseed=%d", p.fastOpen, p.logger, p.nUsers, p.nSegs, p.randSeed)
 	if p.vetoUser >= 0 {
 		fmt.Fprintf(&sb, " veto{user-%d at LogTraffic call %d sticky=%v topUpTx=%v}", p.vetoUser, p.vetoAt, p.sticky, p.topUpTx)
@@ -182,7 +189,7 @@ func (p *v06Plan) String() string {
 
 func (p *v06Plan) fingerprint() string {
 	var sb strings.Builder
-	fmt.Fprintf(&sb, "%v%v%d%d", p.fastOpen, p.logger, p.nUsers, p.nSegs)
+	fmt.Fprintf(&sb, "%v%v%d%d w%d", p.fastOpen, p.logger, p.nUsers, p.nSegs, p.smallWin)
 	if p.vetoUser >= 0 {
 		fmt.Fprintf(&sb, "v%d@%d%v", p.vetoUser, p.vetoAt, p.sticky)
 	}
@@ -205,6 +212,10 @@ func (p *v06Plan) fingerprint() string {
 					sb.WriteString("t" + v06SizeClass(o.n))
 				case v06DL:
 					fmt.Fprintf(&sb, "d%d", o.n&3)
+				case v06WDL:
+					sb.WriteString("W")
+				case v06RStall:
+					sb.WriteString("R")
 				default:
 					sb.WriteString("y")
 				}
@@ -232,7 +243,7 @@ func (p *v06Plan) nontrivial() bool {
 }
 
 func (p *v06Plan) classes() []string {
-	cl := []string{fmt.Sprintf("fastopen:%v", p.fastOpen), fmt.Sprintf("logger:%v", p.logger), fmt.Sprintf("eventlogger:%v", p.eventLogger),
+	cl := []string{fmt.Sprintf("streamwindow:%d", p.smallWin), fmt.Sprintf("fastopen:%v", p.fastOpen), fmt.Sprintf("logger:%v", p.logger), fmt.Sprintf("eventlogger:%v", p.eventLogger),
 		fmt.Sprintf("users:%d", p.nUsers), fmt.Sprintf("conns:%d", len(p.conns)), fmt.Sprintf("segments:%d", p.nSegs)}
 	if p.vetoUser >= 0 {
 		cl = append(cl, "scenario:veto", fmt.Sprintf("veto-sticky:%v", p.sticky))
@@ -270,6 +281,10 @@ func (p *v06Plan) classes() []string {
 			for _, o := range ops {
 				if o.kind == v06DL {
 					cl = append(cl, "op:deadline:"+v06DLNames[o.n&3])
+				} else if o.kind == v06WDL {
+					cl = append(cl, "op:write-deadline-resume")
+				} else if o.kind == v06RStall {
+					cl = append(cl, "op:read-pause")
 				} else if o.kind != v06Sync {
 					cl = append(cl, "chunk:"+v06SizeClass(o.n))
 				}
@@ -311,6 +326,7 @@ func v06GenPlan(rt *rapid.T) *v06Plan {
 	p.fastOpen = rapid.Bool().Draw(rt, "fastOpen")
 	p.logger = rapid.IntRange(0, 3).Draw(rt, "logger") != 1
 	p.eventLogger = rapid.Bool().Draw(rt, "eventLogger")
+	p.smallWin = rapid.SampledFrom([]int{0, 0, 16384, 65536}).Draw(rt, "streamWindow")
 	p.nUsers = rapid.IntRange(1, 2).Draw(rt, "users")
 	nConns := rapid.IntRange(1, 3).Draw(rt, "conns")
 	p.nSegs = rapid.IntRange(1, 3).Draw(rt, "segments")
@@ -383,7 +399,17 @@ func v06GenPlan(rt *rapid.T) *v06Plan {
 			nOps := rapid.IntRange(0, 7).Draw(rt, fmt.Sprintf("c%dSeg%dOps", i, s))
 			for k := 0; k < nOps; k++ {
 				nm := fmt.Sprintf("c%dSeg%dOp%d", i, s, k)
-				switch kind := rapid.IntRange(0, 7).Draw(rt, nm); kind {
+				kmax := 7
+				if p.smallWin > 0 && !vetoSafe {
+					kmax = 9
+				}
+				switch kind := rapid.IntRange(0, kmax).Draw(rt, nm); kind {
+				case 8:
+					c.segs[s] = append(c.segs[s], v06Op{v06WDL, rapid.IntRange(5*p.smallWin, 8*p.smallWin).Draw(rt, nm+"WDL")})
+					c.chunksC++
+				case 9:
+					c.segs[s] = append(c.segs[s], v06Op{v06RStall, rapid.IntRange(3*p.smallWin, 6*p.smallWin).Draw(rt, nm+"RStall")})
+					c.chunksT++
 				case 7:
 					c.segs[s] = append(c.segs[s], v06Op{v06DL, rapid.IntRange(0, 3).Draw(rt, nm+"DL")})
 				case 0, 1, 5:
@@ -618,6 +644,77 @@ func (r *v06Run) setDeadline(conn net.Conn, variant int) {
 	}
 }
 
+// wdlOp: the target stops taking bytes, so the server's copy blocks and QUIC flow
+// control fills up; the client calls Write(n bytes) with a write deadline a few
+// ms ahead. Per io.Writer the returned count k is exactly what was accepted: the
+// model counts k bytes as sent. The deadline is cleared, the target resumes and
+// the client writes the rest from offset k (the usual resume-after-timeout
+// idiom). S1/S2 stay as they are: a byte accepted twice or not at all shows.
+func (r *v06Run) wdlOp(c *v06Conn, n int) bool {
+	w := r.w
+	buf := make([]byte, n)
+	w.mu.Lock()
+	if w.fail != "" || c.u.vetoed {
+		w.mu.Unlock()
+		return false
+	}
+	c.tStall = true
+	off := c.cSent
+	c.cSent += int64(n) // upper bound while the Write is running
+	w.evLocked("tgtStall", c.label, 0, c.tRecv, "")
+	w.evLocked("cliWrite", c.label, int64(n), c.cSent, "under a write deadline 5ms ahead")
+	w.mu.Unlock()
+	unstall := func() {
+		w.mu.Lock()
+		if c.tStall {
+			c.tStall = false
+			w.evLocked("tgtResume", c.label, 0, c.tRecv, "")
+			w.cond.Broadcast()
+		}
+		w.mu.Unlock()
+	}
+	defer unstall()
+	v06Fill(buf, c.saltC, off)
+	_ = c.conn.SetWriteDeadline(time.Now().Add(5 * time.Millisecond))
+	k, err := c.conn.Write(buf)
+	_ = c.conn.SetWriteDeadline(time.Time{})
+	var ne net.Error
+	timedOut := err != nil && errors.As(err, &ne) && ne.Timeout()
+	w.mu.Lock()
+	if k < 0 || k > n {
+		w.failLocked("%s: Write of %d bytes returned count %d", c.label, n, k)
+		k = 0
+	}
+	c.cSent = off + int64(k) // exactly what Write reported as accepted
+	note := "complete"
+	if err != nil {
+		note = fmt.Sprintf("%T timeout=%v", err, timedOut)
+	}
+	w.evLocked("cliWriteRet", c.label, int64(k), c.cSent, note)
+	term := c.terminated
+	w.mu.Unlock()
+	switch {
+	case err == nil:
+		r.st.Class("write-deadline:completed-before-deadline")
+		return true
+	case !timedOut:
+		if !term {
+			r.unexpectedEnd(c, "client Write under a write deadline failed ("+err.Error()+")")
+		}
+		return false
+	}
+	if k > 0 {
+		r.st.Class("write-deadline:partial")
+	} else {
+		r.st.Class("write-deadline:nothing-accepted")
+	}
+	unstall()
+	if k == n {
+		return true
+	}
+	return r.step(c, v06Op{v06CW, n - k})
+}
+
 // dlOp: the application sets a read deadline (in the past / shortly ahead), a
 // Read of the client conn times out, the deadline is cleared again. Bytes that
 // arrive with or around the timeout are ordinary receipts (S1/L1 apply).
@@ -665,6 +762,11 @@ func (r *v06Run) reader(c *v06Conn, conn net.Conn, bufSize int) {
 	exp := make([]byte, bufSize)
 	var off int64
 	for {
+		w.mu.Lock()
+		for c.rStall && !w.ended && w.fail == "" {
+			w.cond.Wait()
+		}
+		w.mu.Unlock()
 		n, err := conn.Read(buf)
 		if n > 0 {
 			v06Fill(exp[:n], c.saltT, off)
@@ -753,6 +855,26 @@ func (r *v06Run) step(c *v06Conn, op v06Op) bool {
 		c.tSent += int64(op.n)
 		w.evLocked("tgtWrite", c.label, int64(op.n), c.tSent, "")
 		w.cond.Broadcast()
+		return true
+	case v06WDL:
+		return r.wdlOp(c, op.n)
+	case v06RStall:
+		w.mu.Lock()
+		if w.fail != "" || c.u.vetoed {
+			w.mu.Unlock()
+			return false
+		}
+		c.rStall = true
+		c.tSent += int64(op.n)
+		w.evLocked("cliReadPause", c.label, int64(op.n), c.tSent, "target writes meanwhile")
+		w.cond.Broadcast()
+		w.mu.Unlock()
+		time.Sleep(3 * time.Millisecond) // lets the server run into flow control; nothing is concluded from it
+		w.mu.Lock()
+		c.rStall = false
+		w.evLocked("cliReadResume", c.label, 0, c.cRecv, "")
+		w.cond.Broadcast()
+		w.mu.Unlock()
 		return true
 	case v06DL:
 		// with fast open the response must have been consumed (a payload byte was read): a deadline that
@@ -1110,7 +1232,7 @@ func (r *v06Run) afterVeto(u *v06User) {
 func v06RunPlan(p *v06Plan, st *vStats) string {
 	rand.Seed(p.randSeed)
 	w := v06NewWorld()
-	w.hasLogger, w.fastOpen, w.hasEL = p.logger, p.fastOpen, p.eventLogger
+	w.hasLogger, w.fastOpen, w.hasEL, w.smallWin = p.logger, p.fastOpen, p.eventLogger, p.smallWin
 	for i := 0; i < p.nUsers; i++ {
 		if i == p.vetoUser {
 			w.addUser(p.vetoAt, p.sticky)
